@@ -777,7 +777,8 @@ Proof.
         apply andb_true_iff in H. destruct H as [H1 H2]. rewrite (Hverd _ H1), has_appr_app, H2. reflexivity.
       * (* an approval of w was taken up: one more callback counts *)
         destruct o as [| | p c cb [|] | | | | |]; try discriminate.
-        cbn [started] in Est. destruct out as [|o1 [|]]; try discriminate. destruct o1; try discriminate.
+        destruct out as [|o1 l]; cbn [started] in Est; try discriminate. destruct o1; cbn [started] in Est; try discriminate.
+        destruct l; cbn [started] in Est; try discriminate.
         destruct (weqb (p, c) w) eqn:Ew; [|discriminate]. apply weqb_eq in Ew. subst w. inversion Est; subst n.
         cbn [d_ok] in Hok. apply andb_true_iff in Hok. destruct Hok as [Hok Hnv]. apply andb_true_iff in Hok.
         destruct Hok as [_ Hcb]. apply negb_true_iff in Hnv. apply Nat.ltb_lt in Hcb.
@@ -824,10 +825,8 @@ Proof.
   intros H p c Hin n Hn cb Hcb.
   destruct (accepted_pinv tr minit [] [] minv_init pinv_init H) as [P1 P2]. cbn [app] in *.
   destruct (P2 (p, c) Hin) as [_ Q]. specialize (Q Hn). specialize (P1 (p, c)). fold n in Q.
-  unfold cnt in P1. fold n in P1.
-  assert (Hall : (length (seq 0 n) <= length (filter (fun cb0 => vmem (p, c, N.of_nat cb0) (d_verd (m_d (mrun minit tr))) &&
-                                                      has_appr (p, c) (map fst tr) cb0) (seq 0 n)))%nat)
-    by (rewrite seq_length; lia).
+  assert (Hall : (length (seq 0 n) <= cnt (p, c) (m_d (mrun minit tr)) (map fst tr))%nat) by (rewrite seq_length; lia).
+  unfold cnt in Hall. fold n in Hall.
   pose proof (filter_length_all _ _ Hall cb) as Hf.
   assert (Hcbin : In cb (seq 0 n)) by (apply in_seq; lia).
   specialize (Hf Hcbin). apply andb_true_iff in Hf. destruct Hf as [_ Hf].
